@@ -129,6 +129,7 @@ func (g *gen) filePart(pInvalid int) *Part {
 	p.P, p.Set, p.NestX, p.EmbA, p.EmbS, p.Iface, p.BadIface, p.Share = nil, nil, nil, nil, nil, nil, false, false
 	p.SM, p.MM, p.MA, p.Pairs = nil, nil, nil, nil
 	p.Arr, p.When, p.Peers, p.PM = nil, nil, nil, nil
+	p.PWhen, p.TU = nil, nil
 	if p.NestS == nil && p.NestN == nil {
 		p.NestS = nil
 	}
@@ -154,6 +155,10 @@ func genFile(seed uint64, faulty bool) *Scenario {
 	fs := &FileSpec{Layout: "plain"}
 	if g.pct(45) {
 		fs.Layout = "k8s"
+	} else if g.pct(35) {
+		// the path is (or becomes) a symlink that is re-pointed at files with
+		// other names, in its own directory or in others
+		fs.Layout = "link"
 	}
 	if g.pct(33) {
 		fs.PollMS = g.in(1, 10) * 60000
@@ -300,6 +305,27 @@ func (g *gen) writerOp(fs *FileSpec, pInvalid int) Op {
 		}
 		return op
 	}
+	if fs.Layout == "link" {
+		switch g.r.IntN(10) {
+		case 0:
+			return Op{K: "touch"}
+		case 1, 2, 3:
+			op := content()
+			op.K, op.N = "rewrite", g.in(0, 3)
+			return op
+		case 4:
+			op := content()
+			op.K = "rename" // a plain file renamed over the symlink
+			return op
+		case 5:
+			if fs.Reload {
+				return Op{K: "reload"}
+			}
+		}
+		op := content()
+		op.K, op.N = "link-swap", g.in(0, 2) // 0: a sibling with another name; 1, 2: a file in another directory
+		return op
+	}
 	if fs.Layout == "k8s" {
 		switch g.r.IntN(8) {
 		case 0:
@@ -370,6 +396,15 @@ func (r *Run) setupFile(st *srcState) {
 	content := partJSON(st.spec.Init, st.idx)
 	f.known[string(content)] = st.spec.Init.ID
 	switch fs.Layout {
+	case "link":
+		// starts as a symlink to a sibling with another name (or, half of the
+		// time, as a plain file that a later link-swap replaces by a symlink)
+		if st.spec.Init.ID%2 == 0 {
+			must(os.WriteFile(filepath.Join(f.dir, "cfg-v0.json"), content, 0644))
+			must(os.Symlink("cfg-v0.json", f.path))
+		} else {
+			must(os.WriteFile(f.path, content, 0644))
+		}
 	case "k8s":
 		f.tsN = 1
 		ts := "..ts-1."
@@ -536,6 +571,29 @@ func (r *Run) writer(c *ClientSpec) {
 			changed()
 			simrt.Yield("w.burst")
 			r.probe("burst")
+		case "link-swap":
+			content := r.contentFor(op, st)
+			f.tsN++
+			target := fmt.Sprintf("cfg-v%d.json", f.tsN) // relative: a sibling
+			if op.N > 0 {
+				d := filepath.Join(f.root, fmt.Sprintf("o%d", f.tsN))
+				os.Mkdir(d, 0755)
+				target = filepath.Join(d, "f.json")
+			}
+			abs := target
+			if !filepath.IsAbs(abs) {
+				abs = filepath.Join(f.dir, target)
+			}
+			os.WriteFile(abs, content, 0644)
+			simrt.Yield("w.link-target-written")
+			tmp := f.path + ".lnk"
+			os.Remove(tmp)
+			os.Symlink(target, tmp)
+			simrt.Yield("w.link-made")
+			os.Rename(tmp, f.path)
+			changed()
+			simrt.Yield("w.link-swapped")
+			r.probe("symlink-repointed")
 		case "k8s-swap":
 			var content []byte
 			if op.Str == "same" {
